@@ -313,15 +313,31 @@ template<class T> struct lenient_serde {
 };
 // type-converting copy to the widened item type (same order): must be the same sketch
 template<class F, class T, class Sk, typename std::enable_if<!std::is_void<typename Ad<T>::Wide>::value, int>::type = 0>
-static void convert_wide(const Sk& s, int src, int dst) {
+static void convert_wide(const Sk& s, int src, int dst, uint64_t os, vt::Rng& g) {
   using U = typename Ad<T>::Wide; using F2 = typename F::template Fam<U>;
   typename F2::Sk c(s);
   Ev e("Convert"); e.i("src", src).i("dst", dst).str("to", Ad<U>::name());
   scalars<F2, U>(e, c); iterate<F2, U>(e, c, nullptr); e.emit();
-  Ev("Destroy").i("id", dst).emit();
+  // an object obtained by a construction route must be usable: the converted copy and a plain copy of the source CONTINUE in lock-step
+  // under the same coins with enough further updates to cross a carry into every level
+  const int REF = 32;
+  Ev("Copy").i("src", src).i("dst", REF).emit(); Sk ref(s);
+  const long more = std::min<long>(150, 5L * s.get_k() + 3);
+  try {
+    for (long t = 0; t < more; t++) {
+      T x = Ad<T>::mk((long)g.range(-400, 400)); const bool last = t + 1 == more;
+      seed_op(os + (uint64_t)t); ref.update(x);
+      { Ev u("Update"); u.i("id", REF).d("v", Ad<T>::key(x)).b("rv", false); if (!g_bits.empty()) u.il("coins", g_bits); scalars<F, T>(u, ref); if (last) iterate<F, T>(u, ref, nullptr); u.emit(); }
+      seed_op(os + (uint64_t)t); c.update(static_cast<U>(x));
+      { Ev u("Update"); u.i("id", dst).d("v", Ad<T>::key(x)).b("rv", false).i("twinOf", REF); if (!g_bits.empty()) u.il("coins", g_bits); scalars<F2, U>(u, c); if (last) iterate<F2, U>(u, c, nullptr); u.emit(); }
+    }
+  } catch (const std::exception&) {
+    Ev("ContinueFailed").i("id", dst).str("route", "converting-copy").emit();
+  }
+  Ev("Destroy").i("id", dst).emit(); Ev("Destroy").i("id", REF).emit();
 }
 template<class F, class T, class Sk, typename std::enable_if<std::is_void<typename Ad<T>::Wide>::value, int>::type = 0>
-static void convert_wide(const Sk&, int, int) {}
+static void convert_wide(const Sk&, int, int, uint64_t, vt::Rng&) {}
 // type-converting copy under the REVERSED comparator: levels above level 0 that hold two different items are no longer sorted
 template<class F, class T, class Sk> static void convert_reversed(const Sk& s, int id) {
   bool distinct = false; std::map<unsigned long long, double> first;
@@ -472,6 +488,32 @@ template<class F, class T> static void segment(vt::Rng& g, long seg, long events
       else { sk[dst] = std::move(r); shape[dst] = shape[src]; pool[dst] = pool[src]; version[dst]++; }
       return true;
   };
+  // every construction route: an object of a DIFFERENT configuration (other k; REQ: the other accuracy mode; already holding a few items)
+  // is copy- or move-ASSIGNED from the source (also from a deserialize() temporary), or a new object is copy- / move-CONSTRUCTED; it must
+  // become the source in every observable respect including the image, and then continues as the source's lock-step twin
+  auto do_assign = [&](int i, int route, uint64_t os) {
+    static const char* RN[] = {"copy-assign", "move-assign", "move-assign-deserialized", "copy-construct", "move-construct"};
+    do_ser(i, 2, 0);                                   // the source's image (the classic sketch sorts its base buffer while writing it)
+    Sk& s = *sk[i];
+    drop_twin(i);
+    std::unique_ptr<Sk> t;
+    if (route <= 2) {
+      const unsigned k2 = s.get_k() == F::min_k() ? F::min_k() * 2 : F::min_k();
+      t.reset(new Sk(F::make(k2, !hra)));
+      for (int q = 0; q < 7; q++) t->update(A::mk(50000 + q));
+    }
+    seed_op(os);
+    if (route == 0) *t = s;
+    else if (route == 1) *t = Sk(s);
+    else if (route == 2) *t = Sk::deserialize(blob[2].data(), blob[2].size());
+    else if (route == 3) t.reset(new Sk(s));
+    else { Sk tmp(s); t.reset(new Sk(std::move(tmp))); }
+    auto img = t->serialize();
+    Ev e("Assign"); e.i("src", i).i("dst", TW + i).str("route", RN[route]).il("coins", g_bits)
+      .bytes("img", img.data(), img.size()).bytes("srcimg", blob[2].data(), blob[2].size());
+    scalars<F, T>(e, *t); iterate<F, T>(e, *t, nullptr); e.emit();
+    tw[i] = std::move(t);
+  };
   // DIRECTED (C09: restore, then continue): at the EMPTY state and at exactly ONE item the sketch is serialized (bytes with a header and
   // stream form), restored through the bytes / stream path as a twin, and both are continued in lock-step under the same coins: updates
   // into estimation mode, queries, a merge INTO them, their use as merge OPERANDS of two equal sketches, a second serialization.  The
@@ -501,6 +543,8 @@ template<class F, class T> static void segment(vt::Rng& g, long seg, long events
       Ev("Destroy").i("id", Y2).emit(); os++;
     }
     do_ser(0, 1, 0);
+    do_assign(0, (int)((seg * 2 + round) % 5), os++);
+    for (int t = 0; t < 20; t++) update_one(0, next_value(shape[0], g), false, os++, t == 19);
   }
   // DIRECTED: an extreme k (the top of "all k") with a short stream: contract, published space bound and (tier B) the level capacities
   { mk(3, F::extreme_k(seg)); uint64_t os = opseed ^ 0x7e7eULL; for (int t = 0; t < 24; t++) update_one(3, next_value(shape[3], g), false, os++, t == 23); observe(3, os); }
@@ -554,7 +598,8 @@ template<class F, class T> static void segment(vt::Rng& g, long seg, long events
       do_merge(i, j, rv, os);
     } else if (op < upd + 17) {
       observe(i, os);
-      if (g.chance(12)) convert_wide<F, T>(*sk[i], i, 30);
+      if (g.chance(12)) convert_wide<F, T>(*sk[i], i, 30, os + 900, g);
+      if (g.chance(15)) do_assign(i, (int)g.below(5), os + 1200);
       if (g.chance(8) && !sk[i]->is_empty()) convert_reversed<F, T>(*sk[i], i);
       if (g.chance(12)) trunc_stream<T>(*sk[i], i, g);
     } else if (op < upd + 22) {
